@@ -7,7 +7,6 @@ Import ListNotations.
    target): a forest containing, at ANY position, a name that is empty, ".", ".." or contains
    '/' is rejected and the file system is exactly as before *)
 Theorem C07_rejects : forall c dir f ts,
-  is_default (c_enc c) = true ->
   (exists t n, In t ts /\ In n (tnames t) /\ elem_ok n = false) ->
   exists e, mkdir_trees c dir f ts = (f, [], Err e).
 Proof. exact mkdir_rejects_bad_names. Qed.
